@@ -497,6 +497,21 @@ def int_chain_rule(rep, R):
                     break
             else:
                 v = _decide_rounds(a[0], it, False, {})
+                R = strip_epochs(p.exit[1])
+                backs = [n for n in walk(v) if n[0] == "sub" and n[2] == C(-1) and n[1] == R]
+                if backs and not [n for n in walk(v) if n[0] == "hv"]:
+                    # the previous value read back as result[-1]: sound when every round appends exactly its own value to the result
+                    apps = [b for b in p.events if b.kind == "call" and b.name == "append" and b.recv is not None and strip_epochs(b.recv) == R]
+                    inl_apps = [b for b in apps if b.loops == e.loops]
+                    pre_last = strip_epochs(R[1][-1]) if R[0] == "lst" and R[1] else None
+                    for b in apps:
+                        if not b.loops:
+                            pre_last = strip_epochs(b.args[0])
+                    if not _is_hex_of(v, backs[0]) or len(inl_apps) != 1 or strip_epochs(inl_apps[0].args[0]) != res or \
+                            (start == 1 and (not pre or pre_last != strip_epochs(pre[0].d.get("result")))):
+                        bad = (e, f"a later round hashes {nshow(v)}, which is not the lower-case hex of the value the previous round produced")
+                        break
+                    continue
                 hvs = [n for n in walk(v) if n[0] == "hv"]
                 if len(set(hvs)) != 1 or not _is_hex_of(v, hvs[0]):
                     bad = (e, f"a later round hashes {nshow(v)}, not the lower-case hex of the previous value")
